@@ -26,6 +26,49 @@ def main(argv):
     if cmd == 'selftest-determinism':
         from . import selftest
         return selftest.determinism(argv[1:])
+    if cmd == 'debug':
+        # debug <harness-or-replay json> [step cap]: run in-process, dump sim-thread stacks at the end
+        import sys as _s, traceback, json as _j
+        from . import core
+        doc = _j.load(open(argv[1]))
+        prop = runner.load_prop(doc.get('property') or os.path.basename(argv[1]).split('-')[1])
+        prop.prepare()
+        if len(argv) > 2:
+            _orig = core.Sim.__init__
+
+            def _init(self, *a, **k):
+                k['step_cap'] = int(argv[2])
+                _orig(self, *a, **k)
+            core.Sim.__init__ = _init
+        try:
+            out = prop.run_plan(doc['plan'], doc['seed'], None)
+            print(_j.dumps(out, indent=1, default=repr)[:3000])
+        except BaseException as e:
+            print('EXC', repr(e))
+        from props import common as _c
+        for x in _c.LOGS[:40]:
+            print('LOG', x)
+        from . import libev as _lv
+        net = _lv._net[0]
+        print('now', core.Sim.current.vnow())
+        for sk in net.all_socks:
+            c = sk.conn
+            print('SOCK fd=%d closed=%s err=%s eof=%s rbuf=%d conn=%s reset=%s inflight=%s' % (sk.fd, sk.closed, sk.err, sk.eof, len(sk.rbuf), c and c.label, c and c.reset, c and c.c2s_inflight))
+        import cassandra.io.libevreactor as _lr
+        gl = _lr._global_loop
+        if gl is not None:
+            for w_ in gl._loop.io:
+                if w_.active: print('IOWATCH fd=%d events=%d ready=%d' % (w_.sock.fd, w_.events, w_.ready()))
+            for cn in gl._live_conns: print('LIVE', cn._socket.fd, 'defunct', cn.is_defunct, 'closed', cn.is_closed, 'deque', len(cn.deque), 'wactive', cn._write_watcher_is_active)
+            print('timers', [(t_.active, t_.at, t_.repeat) for t_ in gl._loop.timers], 'queue', [(e_[0], e_[1].canceled) for e_ in gl._timers._queue][:5])
+        sim = core.Sim.current
+        frames = _s._current_frames()
+        for t in sim.threads:
+            print('---', t.name, t.state, t.why, 'deadline', t.deadline)
+            f = frames.get(t.real_ident)
+            if f is not None and t.state != 'done':
+                print(''.join(traceback.format_stack(f)[-9:]))
+        os._exit(0)
     if cmd == 'once':
         # once <Cnn> <index> [tier]  - run one seed in-process-forked and dump the result
         pid = argv[1].upper()
